@@ -576,30 +576,58 @@ Proof.
   intro H. exists s. split; [reflexivity|congruence].
 Qed.
 
-(* what split_cmd does on an accepted single file *)
-Lemma split_cmd_strict a max xs : strict_parts [a] = SOk xs ->
-  exists groups, a = write_raw_archive 0 groups /\ Forall2 group_of groups xs /\ Forall body_chunk (concat groups) /\
-    split_cmd max a = (do sp <- Split.write_split max (map (map of_c) groups); Ok (map ser_pfile sp)).
+(* what split_cmd does on an accepted part chain (a single file or the parts of a multipart archive): the chain is
+   read to its end, the raw entries — an entry straddling a part boundary reassembled — go through the splitter *)
+Lemma split_cmd_strict chain max xs : strict_parts chain = SOk xs ->
+  exists groups, bodies 0 chain = SOk (concat groups) /\ Forall2 group_of groups xs /\ Forall body_chunk (concat groups) /\
+    reads chain groups /\
+    split_cmd max chain = (do sp <- Split.write_split max (map (map of_c) groups); Ok (map ser_pfile sp)).
 Proof.
-  intro S. destruct (strict_single_written _ _ S) as (groups & E & G & R & C). exists groups.
-  split; [exact E|]. split; [exact G|]. split; [exact C|].
-  pose proof (read_parts_wf _ _ _ R) as W. pose proof (read_written 0 groups ltac:(reflexivity) W) as RW.
-  rewrite <- E in RW. destruct (raw_entries_inv _ _ RW) as (s & OA & RL).
-  unfold split_cmd. rewrite rd_eq, OA. cbn [bind]. rewrite RL.
+  intro S. destruct (strict_reads _ _ S) as (groups & B & G & R & C). exists groups.
+  split; [exact B|]. split; [exact G|]. split; [exact C|]. split; [exact R|].
+  unfold split_cmd. rewrite rd_eq. unfold reads in R. rewrite R. cbn [bind].
   rewrite c_of_eq. destruct (Split.write_split max (map (map of_c) groups)); reflexivity.
 Qed.
 
-(* concat_split_inverse: split an accepted archive with any size the splitter accepts, concatenate the parts:
-   the parts form an accepted chain, the result is an accepted archive, its chunk sequence is the original's with
-   some FDAT/SDAT payloads cut in pieces and nothing else changed, and both decode to the same entries *)
-Theorem concat_split_inverse a max parts xs : strict_parts [a] = SOk xs -> split_cmd max a = Ok parts ->
+(* cutting data chunks twice is cutting them *)
+Lemma crefines_trans : forall y z, crefines y z -> forall x, crefines x y -> crefines x z.
+Proof.
+  induction 1 as [|c y z _ IH|t a b y z T _ IH]; intros x H.
+  - inversion H; subst. constructor.
+  - inversion H as [|c0 x' y0 H'|t0 a0 b0 x' y0 T0 H']; subst.
+    + apply cr_keep. exact (IH _ H').
+    + apply cr_cut; [exact T0|]. exact (IH _ H').
+  - inversion H; subst.
+    + apply cr_cut; [exact T|]. apply IH. apply cr_keep. assumption.
+    + rewrite <- app_assoc. apply cr_cut; [exact T|]. apply IH. apply cr_cut; [exact T|assumption].
+Qed.
+
+Lemma entry_same_trans' x y z : entry_same x y -> entry_same y z -> entry_same x z.
+Proof.
+  destruct x, y, z; cbn; try contradiction.
+  - intros (A1 & A2 & A3 & A4 & A5 & A6) (B1 & B2 & B3 & B4 & B5 & B6). repeat split; congruence.
+  - intros (A1 & A2 & A3 & A4) (B1 & B2 & B3 & B4). repeat split; congruence.
+Qed.
+Lemma Forall2_entry_same_trans : forall xs ys, Forall2 entry_same xs ys -> forall zs, Forall2 entry_same ys zs -> Forall2 entry_same xs zs.
+Proof.
+  induction 1 as [|x y xs ys H _ IH]; intros zs F; inversion F; subst; constructor.
+  - exact (entry_same_trans' _ _ _ H ltac:(eassumption)).
+  - apply IH. assumption.
+Qed.
+
+(* concat_split_inverse, for every accepted input CHAIN (f4d9f833: `pna split` follows the parts of its input): split
+   with any size the splitter accepts, concatenate the parts: the parts form an accepted chain, the result is an
+   accepted archive, its chunk sequence is the chunk sequence of the input chain (everything between the headers and the
+   ANXT/AEND markers of all its parts, in order) with some FDAT/SDAT payloads cut in pieces and nothing else changed,
+   and both decode to the same entries: no entry is dropped, none is truncated at a part boundary *)
+Theorem concat_split_inverse_chain chain max parts xs : strict_parts chain = SOk xs -> split_cmd max chain = Ok parts ->
   exists cs cs' b xs',
-    a = write_header 0 ++ ser_chunks cs ++ finalize /\
+    bodies 0 chain = SOk cs /\
     bodies 0 parts = SOk cs' /\ crefines cs cs' /\
     concat_cmd [parts] = Ok b /\ b = write_header 0 ++ ser_chunks cs' ++ finalize /\
     strict_parts parts = SOk xs' /\ strict_parts [b] = SOk xs' /\ Forall2 entry_same xs xs'.
 Proof.
-  intros S H. destruct (split_cmd_strict a max xs S) as (groups & E & G & C & SC). rewrite SC in H.
+  intros S H. destruct (split_cmd_strict chain max xs S) as (groups & E & G & C & _ & SC). rewrite SC in H.
   destruct (Split.write_split max (map (map of_c) groups)) as [sp| |] eqn:WS; cbn [bind] in H; try discriminate H.
   injection H as <-.
   destruct (split_wf_chunks max _ sp xs WS) as (xs' & S' & ES).
@@ -615,20 +643,66 @@ Proof.
   destruct (concat_wf [map ser_pfile sp] [xs']) as (out & CO & SO & _); [constructor; [exact S'|constructor]|].
   rewrite CC in CO. injection CO as <-. cbn [concat] in SO. rewrite app_nil_r in SO.
   exists (concat groups), (map to_c (concat bds ++ lastb)), (write_header 0 ++ ser_chunks (map to_c (concat bds ++ lastb)) ++ finalize), xs'.
-  split; [rewrite E, write_raw_archive_eq, ser_entries_concat; reflexivity|].
+  split; [exact E|].
   split; [exact BO|]. split; [exact CR|]. split; [exact CC|]. split; [reflexivity|]. split; [exact S'|]. split; [exact SO|exact ES].
 Qed.
 
-(* the same through the composed command of the model, with the verdicts of the recogniser *)
-Corollary splitcat_wf a max parts b : wf_archive a = true -> splitcat max a = Ok (parts, b) ->
+(* the single-file case, with the file spelled out *)
+Theorem concat_split_inverse a max parts xs : strict_parts [a] = SOk xs -> split_cmd max [a] = Ok parts ->
+  exists cs cs' b xs',
+    a = write_header 0 ++ ser_chunks cs ++ finalize /\
+    bodies 0 parts = SOk cs' /\ crefines cs cs' /\
+    concat_cmd [parts] = Ok b /\ b = write_header 0 ++ ser_chunks cs' ++ finalize /\
+    strict_parts parts = SOk xs' /\ strict_parts [b] = SOk xs' /\ Forall2 entry_same xs xs'.
+Proof.
+  intros S H. destruct (concat_split_inverse_chain [a] max parts xs S H) as (cs & cs' & b & xs' & B & R).
+  exists cs, cs', b, xs'. split; [|exact R].
+  destruct (strict_single_written _ _ S) as (groups & E & _ & _ & _).
+  destruct (strict_reads _ _ S) as (groups' & B' & _ & R' & _).
+  destruct (split_cmd_strict [a] max xs S) as (g2 & B2 & _). rewrite B in B2. injection B2 as ->.
+  (* the groups of strict_single_written are the reader's *)
+  destruct (strict_single_written _ _ S) as (g3 & E3 & _ & R3 & _).
+  destruct (strict_reads _ _ S) as (g4 & B4 & _ & R4 & _). unfold reads in R3, R4. rewrite R3 in R4. injection R4 as <-.
+  rewrite B in B4. injection B4 as ->.
+  rewrite E3 at 1. rewrite write_raw_archive_eq, ser_entries_concat. reflexivity.
+Qed.
+
+(* RE-SPLITTING loses nothing: the chain `pna split --max-size max1` wrote, given to `pna split --max-size max2`
+   (the command names its first part and follows the chain), yields parts that form an accepted chain whose chunk
+   sequence is the ORIGINAL's with some FDAT/SDAT payloads cut in pieces, and that decode to the original's entries *)
+Theorem resplit_inverse chain max1 max2 parts1 parts2 xs :
+  strict_parts chain = SOk xs -> split_cmd max1 chain = Ok parts1 -> split_cmd max2 parts1 = Ok parts2 ->
+  exists cs cs2 b xs2,
+    bodies 0 chain = SOk cs /\
+    bodies 0 parts2 = SOk cs2 /\ crefines cs cs2 /\
+    concat_cmd [parts2] = Ok b /\ b = write_header 0 ++ ser_chunks cs2 ++ finalize /\
+    strict_parts parts2 = SOk xs2 /\ strict_parts [b] = SOk xs2 /\ Forall2 entry_same xs xs2.
+Proof.
+  intros S H1 H2.
+  destruct (concat_split_inverse_chain chain max1 parts1 xs S H1) as (cs & cs1 & b1 & xs1 & B & B1 & CR1 & _ & _ & S1 & _ & ES1).
+  destruct (concat_split_inverse_chain parts1 max2 parts2 xs1 S1 H2) as (cs1' & cs2 & b & xs2 & B1' & B2 & CR2 & CC & Eb & S2 & SB & ES2).
+  rewrite B1 in B1'. injection B1' as <-.
+  exists cs, cs2, b, xs2. split; [exact B|]. split; [exact B2|]. split; [exact (crefines_trans _ _ CR2 _ CR1)|].
+  split; [exact CC|]. split; [exact Eb|]. split; [exact S2|]. split; [exact SB|]. exact (Forall2_entry_same_trans _ _ ES1 _ ES2).
+Qed.
+
+(* the same through the composed command of the model, with the verdicts of the recogniser, for every accepted chain *)
+Corollary splitcat_wf_chain chain max parts b : wf_parts chain = true -> splitcat max chain = Ok (parts, b) ->
+  wf_parts parts = true /\ wf_archive b = true /\
+  exists xs xs', strict_parts chain = SOk xs /\ strict_decode b = Ok xs' /\ Forall2 entry_same xs xs'.
+Proof.
+  unfold wf_parts at 1. destruct (strict_parts chain) as [xs|] eqn:S; [|discriminate]. intros _.
+  unfold splitcat. destruct (split_cmd max chain) as [ps| |] eqn:SP; cbn [bind]; try discriminate.
+  destruct (concat_split_inverse_chain chain max ps xs S SP) as (cs & cs' & b' & xs' & _ & _ & _ & CC & _ & SP' & SB & ES).
+  rewrite CC. cbn [bind]. intros [= <- <-].
+  unfold wf_parts, wf_archive, wf_parts, strict_decode. rewrite SP', SB. repeat split. exists xs, xs'. repeat split. exact ES.
+Qed.
+Corollary splitcat_wf a max parts b : wf_archive a = true -> splitcat max [a] = Ok (parts, b) ->
   wf_parts parts = true /\ wf_archive b = true /\
   exists xs xs', strict_decode a = Ok xs /\ strict_decode b = Ok xs' /\ Forall2 entry_same xs xs'.
 Proof.
-  unfold wf_archive at 1, wf_parts at 1. destruct (strict_parts [a]) as [xs|] eqn:S; [|discriminate]. intros _.
-  unfold splitcat. destruct (split_cmd max a) as [ps| |] eqn:SP; cbn [bind]; try discriminate.
-  destruct (concat_split_inverse a max ps xs S SP) as (cs & cs' & b' & xs' & _ & _ & _ & CC & _ & SP' & SB & ES).
-  rewrite CC. cbn [bind]. intros [= <- <-].
-  unfold wf_parts, wf_archive, wf_parts, strict_decode. rewrite SP', SB, S. repeat split. exists xs, xs'. repeat split. exact ES.
+  intros W H. destruct (splitcat_wf_chain [a] max parts b W H) as (W1 & W2 & xs & xs' & S & D & ES).
+  split; [exact W1|]. split; [exact W2|]. exists xs, xs'. split; [unfold strict_decode; rewrite S; reflexivity|]. split; assumption.
 Qed.
 
 (* ================================================================================================= *)
@@ -641,12 +715,12 @@ Proof. exact (writer_strict _ ex_writable). Qed.
 
 (* split at 120 bytes (12 parts), concatenate: accepted, 72 bytes longer than the original (six cuts), and the
    exact copy of the original through concat alone *)
-Definition ex_split : res (list bytes) := Eval vm_compute in split_cmd 120 ex_a.
+Definition ex_split : res (list bytes) := Eval vm_compute in split_cmd 120 [ex_a].
 Definition ex_parts : list bytes := Eval vm_compute in match ex_split with Ok p => p | _ => [] end.
 Definition ex_cat : res bytes := Eval vm_compute in concat_cmd [ex_parts].
 Definition ex_b : bytes := Eval vm_compute in match ex_cat with Ok b => b | _ => [] end.
 Example concat_split_inverse_ex :
-  split_cmd 120 ex_a = Ok ex_parts /\ length ex_parts = 12%nat /\ forallb (fun p => Nat.leb (length p) 120) ex_parts = true /\
+  split_cmd 120 [ex_a] = Ok ex_parts /\ length ex_parts = 12%nat /\ forallb (fun p => Nat.leb (length p) 120) ex_parts = true /\
   concat_cmd [ex_parts] = Ok ex_b /\ wf_archive ex_b = true /\ length ex_b = (length ex_a + 72)%nat /\
   concat_cmd [[ex_a]] = Ok ex_a.
 Proof.
@@ -686,3 +760,63 @@ Example concat_tolerant_reader_ex :
   wf_archive (write_header 0 ++ ser_chunks (ex_e1 ++ [u]) ++ finalize) = false /\
   concat_cmd [[write_header 0 ++ ser_chunks (ex_e1 ++ [u] ++ ex_e2) ++ finalize]] = Ok (write_raw_archive 0 [ex_e1; u :: ex_e2]).
 Proof. vm_compute. repeat split. Qed.
+
+(* ---- `pna split` as it was before f4d9f833 (split_cmd_orig: one file, no part chaining) ------------------------ *)
+(* a two-part chain holding ONE entry that straddles the part boundary *)
+Definition sp_b0 : list chunk := [mk FHED (lit "b"); mk FDAT [x04]].
+Definition sp_b1 : list chunk := [mk FDAT [x05; x06]; mk FEND []].
+Definition sp_chain : list bytes := chain 0 [sp_b0; sp_b1].
+Definition sp_e : list chunk := sp_b0 ++ sp_b1.
+(* `pna split <part 1>`: the old command succeeds and writes an archive without any entry (the chunks of the entry open
+   at the AEND of part 1 are dropped, the ANXT marker is ignored); the repaired one follows the chain and writes the entry *)
+Lemma split_part1_unrepaired :
+  read_parts rds sp_chain = Ok ([sp_e], FinOk) /\
+  (exists p, split_cmd_orig 1000 (nth 0 sp_chain []) = Ok [p] /\ read_parts rds [p] = Ok ([], FinOk)) /\
+  (exists p, split_cmd 1000 sp_chain = Ok [p] /\ read_parts rds [p] = Ok ([sp_e], FinOk)).
+Proof.
+  split; [vm_compute; reflexivity|]. split; eexists; (split; [vm_compute; reflexivity|vm_compute; reflexivity]).
+Qed.
+(* part 2 alone (`pna split x.part2.pna`): with_part(2) of that name is the file itself, so the chain the command can
+   reach is part 2 twice; part 2 is the last one here (no successor announced): its chunks, a headless entry, are
+   copied — the number of the first file opened is not checked.  A missing successor is NotFound, a wrongly numbered
+   one InvalidData, a size below the minimum InvalidInput before any entry is pulled *)
+Example split_chain_errors_ex :
+  split_cmd 1000 [nth 0 sp_chain []] = Err NotFound /\
+  split_cmd 1000 [nth 0 sp_chain []; nth 0 sp_chain []] = Err InvalidData /\
+  split_cmd 1000 [] = Err NotFound /\
+  split_cmd 10 [nth 0 sp_chain []] = Err InvalidInput /\
+  (exists p, split_cmd 1000 [nth 1 sp_chain []; nth 1 sp_chain []] = Ok [p] /\ read_parts rds [p] = Ok ([sp_b1], FinOk)) /\
+  split_cmd 1000 [nth 0 exp_chain []; nth 2 exp_chain []] = Err InvalidData /\
+  split_cmd 1000 [nth 1 exp_chain []; nth 1 exp_chain []; nth 2 exp_chain []] = Err InvalidData.
+Proof.
+  split; [vm_compute; reflexivity|]. split; [vm_compute; reflexivity|]. split; [vm_compute; reflexivity|].
+  split; [vm_compute; reflexivity|]. split; [eexists; split; [vm_compute; reflexivity|vm_compute; reflexivity]|].
+  split; vm_compute; reflexivity.
+Qed.
+
+(* re-splitting the 12 parts of ex_a (120 bytes each) at 200 bytes, and then concatenating: an accepted archive with the
+   three entries of ex_a; the old command on part 1 alone wrote an archive with no entry at all *)
+Definition ex_split2 : res (list bytes) := Eval vm_compute in split_cmd 200 ex_parts.
+Definition ex_parts2 : list bytes := Eval vm_compute in match ex_split2 with Ok p => p | _ => [] end.
+Definition ex_cat2 : res bytes := Eval vm_compute in concat_cmd [ex_parts2].
+Definition ex_b2 : bytes := Eval vm_compute in match ex_cat2 with Ok b => b | _ => [] end.
+Example resplit_ex :
+  wf_parts ex_parts = true /\
+  split_cmd 200 ex_parts = Ok ex_parts2 /\ (1 < length ex_parts2 < 12)%nat /\ forallb (fun p => Nat.leb (length p) 200) ex_parts2 = true /\
+  wf_parts ex_parts2 = true /\ concat_cmd [ex_parts2] = Ok ex_b2 /\ wf_archive ex_b2 = true /\
+  (exists xs xs', strict_decode ex_a = Ok xs /\ strict_decode ex_b2 = Ok xs' /\ length xs = 3%nat /\ Forall2 entry_same xs xs') /\
+  (exists p, split_cmd_orig 200 (nth 0 ex_parts []) = Ok [p] /\ read_parts rds [p] = Ok ([], FinOk)).
+Proof.
+  assert (S1 : split_cmd 120 [ex_a] = Ok ex_parts) by (vm_compute; reflexivity).
+  assert (S2 : split_cmd 200 ex_parts = Ok ex_parts2) by (vm_compute; reflexivity).
+  destruct (resplit_inverse [ex_a] 120 200 ex_parts ex_parts2 _ ex_a_strict S1 S2) as (cs & cs2 & b & xs2 & _ & _ & _ & CC & _ & SP & SB & ES).
+  assert (CB : concat_cmd [ex_parts2] = Ok ex_b2) by (vm_compute; reflexivity).
+  rewrite CB in CC. injection CC as <-.
+  destruct (concat_split_inverse_chain [ex_a] 120 ex_parts _ ex_a_strict S1) as (_ & _ & _ & xs1 & _ & _ & _ & _ & _ & SP1 & _).
+  split; [unfold wf_parts; rewrite SP1; reflexivity|]. split; [exact S2|]. split; [vm_compute; split; repeat constructor|].
+  split; [vm_compute; reflexivity|]. split; [unfold wf_parts; rewrite SP; reflexivity|]. split; [exact CB|].
+  split; [unfold wf_archive, wf_parts; rewrite SB; reflexivity|].
+  split; [|eexists; split; [vm_compute; reflexivity|vm_compute; reflexivity]].
+  eexists _, xs2. split; [unfold strict_decode; rewrite ex_a_strict; reflexivity|].
+  split; [unfold strict_decode; rewrite SB; reflexivity|]. split; [reflexivity|exact ES].
+Qed.
